@@ -137,6 +137,30 @@ func genC09(seed int64, tier string) *Scenario {
 		sc.Files = append(sc.Files, File{Path: "luahelper.json", Data: Bytes(b)})
 		sc.Knobs["project"] = true
 	}
+	multiRoot := !projectMode && r.Intn(4) == 0
+	if multiRoot {
+		// a second workspace root holding files with the same relative paths as files of the first
+		// root and defining the same globals: every per-file order the server uses must stay total
+		// across roots
+		n := 0
+		for _, f := range sc.Files {
+			if strings.HasSuffix(f.Path, ".lua") && r.Intn(2) == 0 && n < 4 {
+				body := string(f.Data) + fmt.Sprintf("root2marker%d = %d\n", n, n)
+				sc.Files = append(sc.Files, File{Path: "/ws2/" + f.Path, Data: Bytes(body)})
+				n++
+			}
+		}
+		sc.Files = append(sc.Files, File{Path: "/ws2/only2.lua", Data: Bytes("only2 = 1\ndupvar = 'root2'\nfunction dupfn(z) return z end\n")})
+		use.WriteString("print(only2, root2marker0)\n")
+		sc.Knobs["multiRoot"] = true
+		if r.Intn(2) == 0 {
+			sc.Folders = []string{Root, "/ws2"}
+		} else {
+			ev := map[string]interface{}{"added": []interface{}{map[string]interface{}{"uri": "file:///ws2", "name": "ws2"}}, "removed": []interface{}{}}
+			b, _ := json.Marshal(ev)
+			sc.Ops = append(sc.Ops, Op{Kind: "folders", Params: b})
+		}
+	}
 	useText := use.String()
 	sc.Files = append(sc.Files, File{Path: "use.lua", Data: Bytes(useText)})
 	sort.Slice(sc.Files, func(i, j int) bool { return sc.Files[i].Path < sc.Files[j].Path })
